@@ -4,6 +4,7 @@ Replies: `(ok payload)`, `(error Kind)`, `(unsupported reason)`, `(bad-request)`
 -/
 import FuraxModel.Codec
 import FuraxModel.Reduce
+import FuraxModel.Stokes
 namespace Furax
 open SExp
 
@@ -29,10 +30,25 @@ def handleLevelA (cmd : String) (args : List SExp) : Option SExp :=
   | "echo", [a] => do some (list [atom "ok", encOp (← decOp a)])
   | _, _ => none
 
+/-- `(mueller OP KIND c s (x…))` → present components of the result;
+`(polarizer KIND (x…))` → the detector value (with `half = 1/2`) -/
+def handleStokes (cmd : String) (args : List SExp) : Option SExp :=
+  match cmd, args with
+  | "mueller", [atom op, atom k, c, s, xs] => do
+    let kind ← StokesKind.ofName? k
+    let x := SV.ofPresent kind (← xs.rats?) (0 : Rat)
+    let y ← applyMueller op (← c.rat?) (← s.rat?) x
+    some (list [atom "ok", ofRats (SV.present kind y)])
+  | "polarizer", [atom k, xs] => do
+    let kind ← StokesKind.ofName? k
+    let x := SV.ofPresent kind (← xs.rats?) (0 : Rat)
+    some (list [atom "ok", ofRat (SV.pol (1/2 : Rat) kind x)])
+  | _, _ => none
+
 def handle (line : String) : String :=
   match SExp.parse line with
   | some (list (atom cmd :: args)) =>
-    match handleLevelA cmd args with
+    match (handleLevelA cmd args).orElse (fun _ => handleStokes cmd args) with
     | some r => r.toStr
     | none => "(bad-request)"
   | _ => "(bad-request)"
